@@ -67,6 +67,36 @@ let () =
                     incr mism; Printf.printf "MISMATCH %d %s :: model=%s\n" (ln+1) (String.sub line 0 (min 200 (String.length line))) ms end
               | _ -> failwith "bad D tail")
          | _ -> failwith "bad D line")
+    | "K" :: rest ->
+        incr n;
+        (* K lo hi s nops (v e)* ok* total nb (from to count)* : RecordCorrectedValue calls on a fresh histogram *)
+        (match zs_of_strings rest with
+         | lo :: hi :: s :: nops :: tl ->
+             let k = int_of_z nops in
+             let rec take i l acc = if i = 0 then (List.rev acc, l) else
+                 match l with x :: r -> take (i-1) r (x :: acc) | [] -> failwith "short K" in
+             let (flat, tl) = take (2 * k) tl [] in
+             let rec pairs l = match l with v :: e :: r -> (v, e) :: pairs r | _ -> [] in
+             let ops = pairs flat in
+             let (okz, tl) = take k tl [] in
+             let oks = List.map (fun z -> string_of_z z = "1") okz in
+             (match tl with
+              | total :: _nb :: bl ->
+                  let rec bars l acc = match l with
+                    | f :: t :: c :: r -> bars r ({ b_from = f; b_to = t; b_count = c } :: acc)
+                    | [] -> List.rev acc | _ -> failwith "bad bars" in
+                  let ibars = bars bl [] in
+                  if not (c12_ok_corr ops oks total ibars) then begin
+                    incr viol; Printf.printf "VIOL %d %s :: c12_ok_corr=false (the total is not the number of values the accepted calls stand for, or not the sum of the bars)\n" (ln+1) line end;
+                  let ((moks, mtot), mbars) = model_obs_corr lo hi s ops in
+                  let show_b l = String.concat ";" (List.map (fun b -> join_z [b.b_from; b.b_to; b.b_count]) l) in
+                  let show_o l = String.concat "" (List.map (fun b -> if b then "1" else "0") l) in
+                  let ms = Printf.sprintf "%s %s %s" (show_o moks) (string_of_z mtot) (show_b mbars) in
+                  let is = Printf.sprintf "%s %s %s" (show_o oks) (string_of_z total) (show_b ibars) in
+                  if ms <> is then begin
+                    incr mism; Printf.printf "MISMATCH %d %s :: model=%s\n" (ln+1) (String.sub line 0 (min 200 (String.length line))) ms end
+              | _ -> failwith "bad K tail")
+         | _ -> failwith "bad K line")
     | [] -> ()
     | _ -> failwith ("unknown line: " ^ line)) lines;
   Printf.printf "SUMMARY cases=%d mismatches=%d violations=%d\n" !n !mism !viol
